@@ -322,6 +322,56 @@ func loopForm(info *types.Info, n ast.Node) (string, string) {
 				}
 			}
 		}
+		// parent-chain walk: for v != nil { ...; v = v.F } (every assignment to v in the loop follows the same field)
+		if be, ok := x.Cond.(*ast.BinaryExpr); ok && be.Op == token.NEQ {
+			if id, ok := be.X.(*ast.Ident); ok {
+				if nl, ok := be.Y.(*ast.Ident); ok && nl.Name == "nil" {
+					field, n, bad := "", 0, false
+					visit := func(node ast.Node) {
+						ast.Inspect(node, func(m ast.Node) bool {
+							as, ok := m.(*ast.AssignStmt)
+							if !ok {
+								return true
+							}
+							for i, l := range as.Lhs {
+								li, ok := l.(*ast.Ident)
+								if !ok || li.Name != id.Name || info.ObjectOf(li) != info.ObjectOf(id) {
+									continue
+								}
+								n++
+								if i >= len(as.Rhs) || as.Tok != token.ASSIGN {
+									bad = true
+									continue
+								}
+								sel, ok := as.Rhs[i].(*ast.SelectorExpr)
+								base, ok2 := (ast.Expr)(nil), false
+								if ok {
+									base, ok2 = sel.X, true
+								}
+								bi, ok3 := base.(*ast.Ident)
+								if !ok || !ok2 || !ok3 || bi.Name != id.Name || (field != "" && field != sel.Sel.Name) {
+									bad = true
+									continue
+								}
+								field = sel.Sel.Name
+							}
+							return true
+						})
+					}
+					visit(x.Body)
+					if x.Post != nil {
+						visit(x.Post)
+					}
+					if n > 0 && !bad && field != "" {
+						if pt, ok := info.TypeOf(id).Underlying().(*types.Pointer); ok {
+							if nt, ok := pt.Elem().(*types.Named); ok {
+								return "chain-walk", nt.Obj().Pkg().Path() + "|" + nt.Obj().Name() + "|" + field
+							}
+						}
+					}
+				}
+			}
+		}
 		// pointer-chasing / data-dependent condition
 		if k, ok := x.Cond.(*ast.Ident); ok && k.Name == "true" {
 			if hasBoundedExit(info, x) {
@@ -509,20 +559,28 @@ func c02Loops(c *core.Ctx, r *core.Report, pkgs []string, rule string) {
 		form, why := loopForm(l.Info, l.Node)
 		forms[form]++
 		cons := fmt.Sprintf("loop:%s.%s#%d", l.Pkg, l.Func, l.Ord)
-		if form != "unbounded" {
-			continue
-		}
-		// frozen exception: Holder.Walk follows Holder.Holder, which is only set in a constructor
-		if l.Pkg == "component_definition" && strings.HasSuffix(l.Func, "Holder.Walk") {
-			holder := c.Named("component_definition", "Holder")
-			stores, _ := c.FieldAccesses(holder, "Holder")
-			okCtor := len(stores) > 0
+		if form == "chain-walk" {
+			// a walk along a parent field is finite if that field is stored only while constructing a fresh object
+			parts := strings.Split(why, "|")
+			var owner *types.Named
+			for _, p := range c.Pkgs {
+				if p.PkgPath == parts[0] {
+					if tn, ok := p.Types.Scope().Lookup(parts[1]).(*types.TypeName); ok {
+						owner, _ = tn.Type().(*types.Named)
+					}
+				}
+			}
+			stores, _ := c.FieldAccesses(owner, parts[2])
+			okCtor := owner != nil && len(stores) > 0
 			for _, st := range stores {
 				if _, fresh := core.Norm(st.Addr.X).(*ssa.Alloc); !fresh {
 					okCtor = false
 				}
 			}
-			r.Check(okCtor, rule, cons, c.Pos(l.Node.Pos()), "exception: parent-chain walk; Holder.Holder is stored only while constructing a fresh holder from an existing one, so the chain is finite and acyclic")
+			r.Check(okCtor, rule, cons, c.Pos(l.Node.Pos()), "parent-chain walk along "+parts[1]+"."+parts[2]+": the field is stored only while constructing a fresh object from an existing one, so the chain is finite and acyclic")
+			continue
+		}
+		if form != "unbounded" {
 			continue
 		}
 		r.Fail(rule, cons, c.Pos(l.Node.Pos()), "loop has no bounded form: "+why)
